@@ -37,13 +37,13 @@ var verifEngineC23 = &verifsim.Engine{
 		"osutil.EnsureDirState, EnsureDirStateGlobs, EnsureTreeState, EnsureFileState (unmodified)",
 		"osutil.MemoryFileState, FileReference, FileReferencePlusMode, SymlinkFileState",
 		"osutil.AtomicWrite, AtomicSymlink, AtomicRename, streamsEqualChunked",
-		"real file system syscalls on a per-run scratch directory (ext4, immutable inode flag for EPERM)",
+		"real file system syscalls on a per-run scratch directory (tmpfs under /dev/shm, else TMPDIR; immutable inode flag for EPERM); snapd's fsync path on in half of the runs, bypassed (osutil.SetUnsafeIO, as in snapd's own unit tests) in the other half",
 	},
 	Stubs: []string{
 		"FileState wrapper around the real states: State() failing at its k-th call, reader failing after n bytes, short reads",
 		"environment obstacles placed by the simulator: directory or symlink-to-directory squatting on a desired name, non-empty directory matching the patterns, immutable file / immutable directory (chattr +i), over-long name (temp name exceeds NAME_MAX), missing reference source, unsupported mode, missing target directory, regular file squatting on a sub-directory path",
 		"interfaces/apparmor and interfaces/seccomp backends are not run (only the osutil primitives they call)",
-		"fsync is bypassed by snapd itself in test binaries (SNAPD_UNSAFE_IO)",
+		"durability is not modelled (fsync on tmpfs is a no-op); crash atomicity of the single write is C06's subject",
 	},
 }
 
@@ -1329,7 +1329,30 @@ const verifExecutions = 5
 
 // verifExecutionsVerbose is used when the run is re-executed for a replay file
 // or by --replay (cost does not matter there, reproducing does).
-const verifExecutionsVerbose = 12
+const verifExecutionsVerbose = 32
+
+// verifKnownViolating remembers (per process) the scenarios, identified by
+// the tape consumed up to the call, in which some execution violated the
+// property. When the same scenario is executed again (the core re-executes
+// a violating tape to minimise and to confirm it) the round is repeated up to
+// verifExecutionsKnown times, so that an order dependent violation that was
+// seen once is seen again. No verdict comes from the cache: it only decides
+// how often the real code is executed.
+var verifKnownViolating = map[uint64]bool{}
+
+const verifExecutionsKnown = 64
+
+func verifTapeKey(c *verifsim.Ctx, round int) uint64 {
+	h := fnv.New64a()
+	var b [4]byte
+	for _, v := range c.Tape.Used {
+		b[0], b[1], b[2], b[3] = byte(v), byte(v>>8), byte(v>>16), byte(v>>24)
+		h.Write(b[:])
+	}
+	b[0] = byte(round)
+	h.Write(b[:1])
+	return h.Sum64()
+}
 
 // ---------------------------------------------------------------------------
 // the run
@@ -1413,6 +1436,7 @@ func (w *verifWorld) runRound(round int, tmpl *verifRound, entries int, call fun
 	for rel := range w.immutPlan {
 		tmpl.immutPaths[rel] = true
 	}
+	key := verifTapeKey(c, round)
 	r := w.execute(tmpl, nil, 0, call)
 	c.Logf("round %d: before=%s immutable-dir=%v", round, r.before, r.immutDir)
 	for _, rel := range verifSortedWants(r.wants) {
@@ -1424,6 +1448,9 @@ func (w *verifWorld) runRound(round int, tmpl *verifRound, entries int, call fun
 		max := verifExecutions
 		if c.Verbose {
 			max = verifExecutionsVerbose
+		}
+		if verifKnownViolating[key] {
+			max = verifExecutionsKnown
 		}
 		for k := 1; k < max; k++ {
 			w.restore(first.before)
@@ -1509,6 +1536,29 @@ func (w *verifWorld) runRound(round int, tmpl *verifRound, entries int, call fun
 	if len(first.changed) > 0 && len(first.removed) > 0 {
 		c.Nontrivial()
 	}
+	if w.tree && first.err == nil {
+		// observation only (directories are outside the statement, and the
+		// effect depends on snapd's map iteration order, so it stays out of
+		// the event log): an empty directory that is not in the content map
+		// and from which nothing was removed disappears
+		for rel, e := range first.before.ents {
+			if e.kind != 'd' || first.before.fullDir[rel] || w.managed(rel) {
+				continue
+			}
+			if _, still := first.after.ents[rel]; still {
+				continue
+			}
+			inContent := false
+			for _, d := range first.contentDirs {
+				if d == rel || strings.HasPrefix(d, rel+"/") {
+					inContent = true
+				}
+			}
+			if !inContent {
+				c.Count("obs:unrelated-empty-directory-removed")
+			}
+		}
+	}
 	// the hashed event log
 	switch {
 	case r.err == nil:
@@ -1527,6 +1577,9 @@ func (w *verifWorld) runRound(round int, tmpl *verifRound, entries int, call fun
 		// order too: only the verdict is hashed
 		c.Logf("round %d: error, violating execution", round)
 		w.note("error=%q changed=%v removed=%v after=%s", verifErrText(r.err), verifShortAll(r.changed), verifShortAll(r.removed), r.after)
+	}
+	if len(v.viol) > 0 && len(verifKnownViolating) < 1<<16 {
+		verifKnownViolating[key] = true
 	}
 	w.apply(v)
 	// immutability is per round
